@@ -376,3 +376,11 @@ package basicnode
 //@   requires n.ReadSeeker != nil
 //@   assigns[only:C20] nothing
 //@   ensures[C11] err == nil ==> len(r) == io.blen(n.ReadSeeker.data)
+
+// ---- the integer assembler accepts a node only if its value is an int64 (an unsigned node above
+//      MaxInt64 is rejected, not wrapped) and stores exactly that value ----
+//@ func (*plainInt__Assembler).AssignNode(v) (err)
+//@   requires na != nil && na.w != nil && v != nil
+//@   assigns *na.w
+//@   ensures[C01,C03] err == nil ==> datamodel.vkind(v.val) == datamodel.Kind_Int && datamodel.vint(v.val) <= 9223372036854775807 && *na.w == datamodel.vint(v.val)
+//@   ensures[C01,C03] err != nil ==> *na.w == old(*na.w)
